@@ -365,7 +365,9 @@ def main():
     run.add_bounded("whole namespace vs dependency-closed subset vs reversed order: shared files byte-identical (c, py)", "3 types, 3 variants, 2 languages", 6, w is None, str(w or ""))
     if w:
         run.fail(report.Failure("native#subset/order", "frame", f"{w['input']}: {w['why']}", {"witness": w}, True))
-    run.trust("E-FX (vk/efx.py)", "history lemma L2 (paper): per-file state reset or transparent => output independent of earlier files/runs")
+    from props import lean_glue
+    lean_glue.lemmas(run, "Glue.lean", ["L2_per_file", "L2_order_independent"], "per-file output independent of the incoming generator state => each file's output in any sequence equals its output alone")
+    run.trust("E-FX (vk/efx.py)", "lean 4 (history lemma L2: per-file state reset or transparent => output independent of earlier files/runs; lean/Glue.lean, checked on every run)")
     run.assume("Jinja's template cache is keyed by template name with auto_reload off; template rendering has no other hidden state")
     run.explanation = "closed-world scan of every write to state that outlives one file; each must be reset per file, a transparent cache, or unreachable from the per-file entry points"
     return run.finish()
